@@ -175,7 +175,10 @@ pub fn read_all(tree: &surrealkv::Tree, keys: &[Key]) -> Result<BTreeMap<Key, Va
 /// rule: contents == model.live(p) for one commit boundary p with lo <= p <= hi.
 /// `deep`: additionally commit a probe write, close cleanly, reopen and compare.
 #[allow(clippy::too_many_arguments)]
-pub fn recover_check(opts: &StoreOpts, dir: &Path, model: &Model, lo: u64, hi: u64, keys: &[Key], deep: bool, seed: u64, recovery_flushed: bool) -> RecResult {
+/// `history`: also compare version history / time-travel reads with the recovered prefix (C10;
+/// requires a workload inside C10's domain).
+#[allow(clippy::too_many_arguments)]
+pub fn recover_check(opts: &StoreOpts, dir: &Path, model: &Model, lo: u64, hi: u64, keys: &[Key], deep: bool, seed: u64, recovery_flushed: bool, history: bool) -> RecResult {
 	let opts = opts.clone();
 	let dir = dir.to_path_buf();
 	let model = model.clone();
@@ -217,6 +220,35 @@ pub fn recover_check(opts: &StoreOpts, dir: &Path, model: &Model, lo: u64, hi: u
 					}
 				};
 				let (p, mut viol) = judge_contents_ctx(&model, &got, lo, hi, recovery_flushed);
+				if viol.is_none() && opts.versioning && history {
+					if let Some(p) = p {
+						// several commit prefixes can have the same live map (a soft delete of
+						// an absent key, an overwrite with... ) but different histories: the
+						// store may have recovered to any of them inside the window
+						let mut cands: Vec<u64> = model.boundaries().into_iter().filter(|b| *b >= lo && *b <= hi.max(lo) && model.live(*b) == got).collect();
+						if !cands.contains(&p) {
+							cands.push(p);
+						}
+						let mut first: Option<Violation> = None;
+						let mut ok = false;
+						for c in cands.iter().rev() {
+							match history_after_recovery(&tree, &model, *c) {
+								None => {
+									ok = true;
+									break;
+								}
+								Some(v) => {
+									if *c == p || first.is_none() {
+										first = Some(v);
+									}
+								}
+							}
+						}
+						if !ok {
+							viol = first;
+						}
+					}
+				}
 				if viol.is_none() && deep {
 					viol = deep_checks(&tree, &opts, &dir, &got, &all_keys, no_flush_leg).await;
 					return (viol, p, got);
@@ -253,6 +285,98 @@ pub fn recover_check(opts: &StoreOpts, dir: &Path, model: &Model, lo: u64, hi: u
 			RecResult { violation: Some(Violation::new("panic", format!("panic during recovery: {}", msg))), p: None, ops: vec![], contents: BTreeMap::new() }
 		}
 	}
+}
+
+/// With versioning on: the version history and time-travel reads of the recovered store
+/// equal those of the commit prefix `p` it recovered to (both traversal directions).
+fn history_after_recovery(tree: &surrealkv::Tree, model: &Model, p: u64) -> Option<Violation> {
+	use surrealkv::{HistoryOptions, LSMIterator};
+	let keys = model.all_keys();
+	if keys.is_empty() {
+		return None;
+	}
+	let lo = keys.iter().min().unwrap().clone();
+	let mut hi = keys.iter().max().unwrap().clone();
+	hi.push(0xff);
+	let txn = match tree.begin_with_mode(Mode::ReadOnly) {
+		Ok(t) => t,
+		Err(e) => return Some(Violation::new("read_error", format!("begin after recovery failed: {}", e))),
+	};
+	type E = (Key, u64, bool, Option<Val>);
+	let mut want: Vec<E> = Vec::new();
+	let mut sorted = keys.clone();
+	sorted.sort();
+	for k in &sorted {
+		for (ts, _ord, kind, val) in model.versions(k, p) {
+			let tomb = kind == crate::model::Kind::SoftDelete;
+			want.push((k.clone(), ts, tomb, if tomb { None } else { val }));
+		}
+	}
+	let norm = |v: &mut Vec<E>| v.sort_by(|a, b| a.0.cmp(&b.0).then(b.1.cmp(&a.1)).then(a.2.cmp(&b.2)).then(a.3.cmp(&b.3)));
+	norm(&mut want);
+	for rev in [false, true] {
+		let ho = HistoryOptions::new().with_tombstones(true);
+		let got = (|| -> surrealkv::Result<Vec<E>> {
+			let mut it = txn.history_with_options(lo.clone(), hi.clone(), &ho)?;
+			let mut out = Vec::new();
+			let mut ok = if rev { it.seek_last()? } else { it.seek_first()? };
+			while ok && it.valid() {
+				let k = it.key();
+				let tomb = k.is_tombstone();
+				if std::env::var("SKV_HDBG").is_ok() {
+					eprintln!("HDBG rev={} key={} seq={} ts={} tomb={} hard={} replace={}", rev, hex(k.user_key()), k.seq_num(), k.timestamp(), tomb, k.is_hard_delete_marker(), k.is_replace());
+				}
+				out.push((k.user_key().to_vec(), k.timestamp(), tomb, if tomb { None } else { Some(it.value()?) }));
+				ok = if rev { it.prev()? } else { it.next()? };
+				if out.len() > 100_000 {
+					break;
+				}
+			}
+			Ok(out)
+		})();
+		let mut got = match got {
+			Ok(g) => g,
+			Err(e) => return Some(Violation::new("read_error", format!("history after recovery failed: {}", e))),
+		};
+		norm(&mut got);
+		if got != want {
+			let show = |v: &Vec<E>| v.iter().map(|e| format!("{}@{}{}", hex(&e.0), e.1 - ip::SIM_EPOCH_NS.min(e.1), if e.2 { "(tomb)" } else { "" })).collect::<Vec<_>>().join(", ");
+			return Some(Violation::new(
+				"history_mismatch",
+				format!("after recovery to commit prefix {} the {} history is [{}] but that prefix's history is [{}]", p, if rev { "backward" } else { "forward" }, show(&got), show(&want)),
+			));
+		}
+	}
+	// time-travel reads at every version timestamp (and one below the oldest)
+	for k in &sorted {
+		let vs = model.versions(k, p);
+		let mut tss: Vec<u64> = vs.iter().map(|v| v.0).collect();
+		if let Some(m) = tss.iter().min().copied() {
+			tss.push(m.saturating_sub(1));
+		}
+		for t in tss {
+			let want = model.get_at(k, t, p);
+			match txn.get_at(k.as_slice(), t) {
+				Ok(g) => {
+					if !want.contains(&g) {
+						return Some(Violation::new("get_at_mismatch", format!("after recovery to commit prefix {}: get_at({}, {}) returned {:?}, that prefix has {:?}", p, hex(k), t - ip::SIM_EPOCH_NS.min(t), g.map(|x| String::from_utf8_lossy(&x[..x.len().min(16)]).to_string()), want.iter().map(|w| w.as_ref().map(|x| String::from_utf8_lossy(&x[..x.len().min(16)]).to_string())).collect::<Vec<_>>())));
+					}
+				}
+				Err(e) => return Some(Violation::new("read_error", format!("get_at after recovery failed: {}", e))),
+			}
+		}
+	}
+	None
+}
+
+/// F9 (known finding): the B+tree version index is updated in place, page by page, without a
+/// journal; a power loss that tears or drops one of its page writes leaves an index the store
+/// cannot read (error or panic out of the B+tree code). True when `v` has that shape.
+pub fn index_torn_by_power_loss(opts: &StoreOpts, power_loss: bool, v: &Violation) -> bool {
+	power_loss
+		&& opts.versioned_index
+		&& matches!(v.class.as_str(), "panic" | "open_failed" | "read_error" | "reopen_failed" | "recover_failed")
+		&& (v.detail.contains("B+ tree error") || v.detail.contains("src/bplustree/") || (v.detail.contains("out of range for slice of length 0") && v.detail.contains("/repo/src/lib.rs:")))
 }
 
 /// C07 legs on a successfully recovered store: commit to existing keys must be newest
